@@ -77,6 +77,22 @@ CLAIMED = {
             "The matrix is exhaustive (evidence: schedules.distinct_matrix_cells = 192); contents within a cell are sampled. What assert compares against after a third-party edit or an update/no-update flip is DONT_CARE, and so is what new does with an unreadable file, or whether it writes, while UPDATE_GOLDEN is set (the statement then only asks that the file hold got afterwards). Torn writes and EIO exist in the simulated leg only."),
 }
 
+# round 9 additions to the level texts (DESIGN.md 11.9)
+ROUND9 = {
+    "C02": " In 1 run of 5 some file ends in text that does not parse: a false assertion before it in load order must still be the error reported.",
+    "C06": " Round 9: a token-soup class (files assembled from the grammar's tokens in no grammatical order, torn) and the report commands in converted / historical / ranged / filtered shapes on tear, hostile and soup worlds.",
+    "C08": " The command-line leg passes each expression as a value-expr, bare, and with redundant parentheses around every operand.",
+    "C09": " The command line is also asked on another day (--now, or the simulated clock of a fresh OS process); lots carry [date] annotations of other days.",
+    "C11": " Dot-files included by their own name must be loaded.",
+    "C12": " Half of the alias-is-canonical conflicts sit under a name declared before.",
+    "C14": " A sixth of the runs put a carriage return outside any CRLF pair directly before entries.",
+    "C15": " 1 hostile CSV statement in 25 is dated in the year 24.",
+    "C16": " A third of the rule-borne conversions are preceded by a rule with another conversion for the same rows.",
+    "C17": " The shortest applying document may carry a format that is wrong for the statement in every respect; the longer path's replaces it whole.",
+    "C18": " Entries may announce a batch (Btch/NbOfTxs) without details; debits may consist of the bank's charge alone.",
+    "C20": " In a third of the runs every other environment variable is set (simulated) and 18 update-style variables are set (real): only UPDATE_GOLDEN may switch updating on.",
+}
+
 NOT_BUILT = {}
 
 NOT_APPLICABLE = {
@@ -95,6 +111,7 @@ def main():
     for i in ids:
         if i in CLAIMED:
             cat, tech, text, note = CLAIMED[i]
+            text = text + ROUND9.get(i, "")
             checks.append({
                 "property_id": i,
                 "quick_cmd": f"./check run {i} --tier quick",
